@@ -23,7 +23,7 @@ MANIFEST = {
              '(each is an invariant of the search history). The claim is "these parts are as the property needs them".'),
 }
 EXPLANATION = 'Unsafe inventory + premise dominance for the sentinel scans + structural completeness facts of run_dispatch.'
-RULES = ['C05-1.unsafe', 'C05-1.premises', 'C05-2.complete', 'C05-3.timedpath']
+RULES = ['C05-1.unsafe', 'C05-1.premises', 'C05-2.complete', 'C05-3.timedpath', 'C05-4.times', 'C05-5.index']
 ASSUMPTIONS = ['the sentinel index passed by callers is the one the scan was designed for (not decided)']
 
 # reviewed unsafe sites: function -> number of unchecked accesses (DESIGN A.3; 14 in total)
@@ -36,6 +36,12 @@ def run(ctx):
     premises(ctx)
     complete(ctx)
     timedpath(ctx)
+    # clauses shared with C04, decided by the same rules: the time an advance starts from and the stamps it writes (arrival times
+    # non-decreasing and never faster than the free-running estimates), and the addressing of authorities (a wrong entry index
+    # reads another train's authority or aborts past the end of the list)
+    from .common import RuleProxy
+    from . import C04
+    C04.run(RuleProxy(ctx, {'C04-0.start': 'C05-4.times', 'C04-6.clear': 'C05-4.times', 'C04-8.index': 'C05-5.index'}))
 
 
 def unsafe_inventory(ctx):
